@@ -60,6 +60,23 @@ class UF:
         self.p[self.find(a)] = self.find(b)
 
 
+_INCOMPLETE: list = []
+
+
+def _incomplete_module():
+    if not _INCOMPLETE:
+        from hugr import tys
+        from hugr.build.function import Module
+
+        m = Module()
+        f = m.define_function("f", [tys.Bool], [tys.Bool])
+        f.set_outputs(*f.inputs())
+        g = m.define_main([tys.Bool])
+        g.call(f.parent_node, *g.inputs())  # main never gets its outputs
+        _INCOMPLETE.append(m.hugr)
+    return _INCOMPLETE[0]
+
+
 def check_model(h):
     import hugr.model as model
     from hugr import ops
@@ -70,6 +87,11 @@ def check_model(h):
     def bad(what, msg):
         fails.append((what, msg))
 
+    # an export that must be refused (a function without its outputs) comes first: it leaves nothing behind
+    try:
+        _incomplete_module().to_model()
+    except Exception:  # noqa: BLE001
+        pass
     try:
         mod = h.to_model()
     except Exception as e:  # noqa: BLE001
